@@ -11,12 +11,13 @@ import tempfile
 from . import common
 from .ilfront import sx
 
-REG = re.compile(r"\b([RPCMN])([a-z]{1,2})([VN])\b")
+REG = re.compile(r"\b([RPCMN])([stuvw]|ss|tt|uu|vv|[de]|dd|[xyz]|xx|yy)([VN])\b")
 IMM = re.compile(r"\b([rRsSuUmn])iV\b")
 EXPL = re.compile(r"\b([RPCM])(\d+)(?::(\d+))?(_NEW)?\b")
 ALIAS = re.compile(r"\bHEX_REG_ALIAS_([A-Z0-9_]+?)(_NEW)?\b")
 ALIASES = ["LR", "SP", "FP", "GP", "USR", "SA0", "LC0", "SA1", "LC1", "FRAMEKEY", "UGP", "M0", "M1", "CS0", "CS1",
-           "P3_0", "FRAMELIMIT", "UPCYCLE", "PKTCOUNT", "UTIMER"]
+           "P3_0", "FRAMELIMIT", "UPCYCLE", "PKTCOUNT", "UTIMER", "PKTCNTHI", "PKTCNTLO", "UPCYCLEHI", "UPCYCLELO", "UTIMERHI", "UTIMERLO"]
+NAL = len(ALIASES)
 ALIAS64 = {"UPCYCLE", "PKTCOUNT", "UTIMER"}
 NV = 64  # operand vector length
 NL = 24  # exported locals
@@ -184,7 +185,7 @@ void __ubsan_handle_shift_out_of_bounds(void *d, void *l, void *r){ ub_flag |= 1
 void __ubsan_handle_divrem_overflow(void *d, void *l, void *r){ ub_flag |= 2; }
 void __ubsan_handle_shift_out_of_bounds_abort(void *d, void *l, void *r){ ub_flag |= 1; }
 void __ubsan_handle_divrem_overflow_abort(void *d, void *l, void *r){ ub_flag |= 2; }
-static struct { uint32_t pc, npc, cs, memseed; uint64_t al[20]; int jump_flag; uint32_t jump_target; int cancelled; int rmode; int setround; } S;
+static struct { uint32_t pc, npc, cs, memseed; uint64_t al[@NAL@]; int jump_flag; uint32_t jump_target; int cancelled; int rmode; int setround; } S;
 @ALIASDEFS@
 #define HEX_REG_ALIAS_PC (S.pc)
 #define JUMP(x) do { S.jump_flag = 1; S.jump_target = (uint32_t)(x); } while (0)
@@ -263,13 +264,13 @@ int main(void){
     char *p = line; static In in; static Out out; memset(&in,0,sizeof in); memset(&out,0,sizeof out);
     long idx = strtol(p, &p, 16);
     S.memseed = (uint32_t)strtoull(p, &p, 16); S.pc = (uint32_t)strtoull(p, &p, 16); S.npc = (uint32_t)strtoull(p, &p, 16); S.cs = (uint32_t)strtoull(p, &p, 16);
-    for (int a = 0; a < 20; a++) S.al[a] = strtoull(p, &p, 16);
+    for (int a = 0; a < @NAL@; a++) S.al[a] = strtoull(p, &p, 16);
     int n = nvars[idx];
     for (int v = 0; v < n; v++) in.v[v] = strtoull(p, &p, 16);
     S.jump_flag = 0; S.jump_target = 0; S.cancelled = 0; S.rmode = 0; S.setround = 0; ub_flag = 0; memset(mem_used, 0, sizeof mem_used); mem_n = 0;
     if (sigsetjmp(fpe_jb, 1) == 0) table[idx](&in, &out); else ub_flag |= 64;
     printf("%d %d %x %d", ub_flag, S.jump_flag, S.jump_target, S.cancelled);
-    for (int a = 0; a < 20; a++) printf(" %llx", (unsigned long long)S.al[a]);
+    for (int a = 0; a < @NAL@; a++) printf(" %llx", (unsigned long long)S.al[a]);
     for (int v = 0; v < n; v++) printf(" %llx", (unsigned long long)out.v[v]);
     for (int v = 0; v < nloc[idx]; v++) printf(" %llx", (unsigned long long)out.l[v]);
     printf(" %d", mem_n);
@@ -317,7 +318,7 @@ class Oracle:
         subs = dict(sub_src)
         if extra_subs:
             subs.update(extra_subs)
-        self.head = PRELUDE.replace("@ALIASDEFS@", "\n".join(al)).replace("@NV@", str(NV)).replace("@NL@", str(NL)) + subroutine_c(subs)
+        self.head = PRELUDE.replace("@ALIASDEFS@", "\n".join(al)).replace("@NV@", str(NV)).replace("@NL@", str(NL)).replace("@NAL@", str(NAL)) + subroutine_c(subs)
         self.flags = [opt, "-fwrapv", "-fsanitize=shift-exponent,integer-divide-by-zero", "-fsanitize-recover=all", "-w", "-frounding-math"]
         if cc == "clang":
             self.flags += ["-fno-sanitize-link-runtime", "-ferror-limit=0"]
@@ -348,7 +349,7 @@ class Oracle:
         for k, (expr, a, b, ub) in enumerate(SELFTEST):
             src.append(f"static void beh_{n + k}(const In *in, Out *out) {{ volatile uint64_t a = in->v[0], b = in->v[1]; out->v[0] = (uint64_t)({expr}); }}\n")
         tot = n + len(SELFTEST)
-        src.append(MAIN.replace("@TABLE@", ", ".join(f"beh_{i}" for i in range(tot)))
+        src.append(MAIN.replace("@NAL@", str(NAL)).replace("@TABLE@", ", ".join(f"beh_{i}" for i in range(tot)))
                    .replace("@NVARS@", ", ".join([str(len(o)) for o in self.oplists] + ["2"] * len(SELFTEST)))
                    .replace("@NLOC@", ", ".join([str(len(p.get("exports", ()))) for p in self.parts] + ["0"] * len(SELFTEST))))
         return "\n".join(src)
@@ -389,7 +390,7 @@ class Oracle:
         n = len(self.parts)
         lines = []
         for k, (expr, a, b, ub) in enumerate(SELFTEST):
-            lines.append(" ".join([f"{n + k:x}", "0", "0", "0", "0"] + ["0"] * 20 + [f"{a:x}", f"{b:x}"]))
+            lines.append(" ".join([f"{n + k:x}", "0", "0", "0", "0"] + ["0"] * NAL + [f"{a:x}", f"{b:x}"]))
         out = self._exec(lines)
         bad = []
         for (expr, a, b, ub), ol in zip(SELFTEST, out):
@@ -420,10 +421,10 @@ class Oracle:
             nops = len(self.oplists[idx])
             nl = len(self.parts[idx].get("exports", ()))
             r = dict(ub=int(f[0]), jump_flag=int(f[1]), jump_target=int(f[2], 16), cancelled=int(f[3]),
-                     al=[int(x, 16) for x in f[4:24]], vals=[int(x, 16) for x in f[24:24 + nops]],
-                     locals=[int(x, 16) for x in f[24 + nops:24 + nops + nl]])
+                     al=[int(x, 16) for x in f[4:4 + NAL]], vals=[int(x, 16) for x in f[4 + NAL:4 + NAL + nops]],
+                     locals=[int(x, 16) for x in f[4 + NAL + nops:4 + NAL + nops + nl]])
             mem = {}
-            for x in f[25 + nops + nl:]:
+            for x in f[5 + NAL + nops + nl:]:
                 a, b = x.split(":")
                 mem[int(a, 16)] = int(b, 16)
             r["mem"] = mem
